@@ -249,7 +249,7 @@ func (r *runner) close() { r.cancel() }
 
 // ---- shared generators
 
-var addrPool = []string{"10.0.0.1:9100", "10.0.0.2:9100", "10.0.0.1", "host-a", "host-b:8080", "[::1]", "[fe80::1]:9100", "example.org:443"}
+var addrPool = []string{"10.0.0.1:9100", "10.0.0.2:9100", "10.0.0.1", "host-a", "host-b:8080", "[::1]", "[fe80::1]:9100", "example.org:443", "2001:db8::9", "fd00:10:96::10"}
 
 var valuePool = []string{"v1", "v2", "prod", "with space", "quo\"te", "new\nline", "a: b", "# hash", " lead", "trail ", "true", "null", "ünï-世界", "0123", "x;y", "/alt/path", "https", "http", "9100"}
 
